@@ -285,3 +285,90 @@ def corr_pit_relabel(ctx, pool):
         ctx.corr("C06.ModelExtract.pit_of == ELEMENT_IDX / FROM_NODE / TO_NODE of the real pipe pit, for generated "
                  "nets and their relabelled twins (positions equal across the twins)", n_tot, n_mis)
     return finish
+
+
+# ------------------------------------------------------------------------------------------ set_fixed_node_entries
+def fixed_case(rng, sp, juncts=None, use_numba=None):
+    """the real set_fixed_node_entries on the node pit of a real net with integer set-points (multiples of 12, at most
+    four per junction, so the mean is exact); fresh counters"""
+    import pandapipes.idx_node as inode
+    from pandapipes.component_models.junction_component import Junction
+    ct = sys.modules["pandapipes.component_models.component_toolbox"]
+    net = gen.build(sp)
+    s = drive.psetup()
+    use_numba = (rng.random() < 0.4) if use_numba is None else use_numba
+    s.init_options(net, use_numba=use_numba)
+    s.init_all_result_tables(net)
+    s.create_lookups(net)
+    s.initialize_pit(net)
+    L = net["_lookups"]
+    f, t = L["node_from_to"]["junction"]
+    npit = net["_pit"]["node"]
+    js = [int(x) for x in net.junction.index.values]
+    if juncts is None:
+        pool = rng.sample(js, min(len(js), rng.randint(2, 4)))
+        juncts = [rng.choice(pool) for _ in range(rng.randint(2, 6))]
+        juncts = [j for k, j in enumerate(juncts) if juncts[:k].count(j) < 4]
+    vals = [12 * rng.randint(1, 400) for _ in juncts]
+    npit[:, inode.EXT_GRID_OCCURENCE] = 0
+    npit[f:t, inode.PINIT] = SENTINEL
+    npit[:, inode.NODE_TYPE] = inode.L
+    ct.set_fixed_node_entries(net, npit, np.array(juncts), np.array(["p"] * len(juncts)), np.array(vals, dtype=np.float64),
+                              Junction, "p")
+    val = cm.as_int_list(npit[f:t, inode.PINIT], "PINIT")
+    cnt = cm.as_int_list(npit[f:t, inode.EXT_GRID_OCCURENCE], "EXT_GRID_OCCURENCE")
+    typ = [int(x) == inode.P for x in npit[f:t, inode.NODE_TYPE]]
+    exp_val = [(sum(v for j, v in zip(juncts, vals) if j == l) // juncts.count(l)) if l in juncts else SENTINEL for l in js]
+    exp_cnt = [juncts.count(l) for l in js]
+    bad = None
+    if val != exp_val or cnt != exp_cnt or typ != [c > 0 for c in exp_cnt]:
+        bad = {"labels_in_row_order": js, "fixed_at": juncts, "values": vals, "observed_value": val, "observed_count": cnt,
+               "observed_fixed_type": typ, "expected_value": exp_val, "expected_count": exp_cnt}
+    txt = ("{| fx_numba := %s; fx_js := %s; fx_juncts := %s; fx_vals := %s; fx_old := %s; fx_val := %s; fx_count := %s |}"
+           % (cbool(use_numba), cm.zl(js), cm.zl(juncts), cm.zl(vals), cm.zl([SENTINEL] * len(js)), cm.zl(val), cm.zl(cnt)))
+    return txt, bad
+
+
+def corr_fixed(ctx, pool):
+    rng = ctx.rng
+    body, any_bad = [], False
+    trials = []
+    for labels in ([4, 3, 2, 1, 0], [7, 2, 9, 0, 5], [100004, 3, 100001, 8, 100000], [0, 1, 2, 3, 4]):
+        sp = mon.two_supply_spec(labels)
+        for nb in (False, True):
+            trials.append((sp, [labels[0], labels[-1], labels[0]], nb))
+            trials.append((sp, [labels[-1], labels[2], labels[0], labels[2]], nb))
+    for i in range(16 if ctx.quick else 400):
+        prof = ["water", "heat", "gas"][i % 3]
+        trials.append((gen.gen_net(rng, prof, label_mode=rng.choice(["shuffled", "sparse", "large", "contig"])), None, None))
+    for sp, juncts, nb in trials:
+        try:
+            txt, bad = fixed_case(rng, sp, juncts, nb)
+        except Exception:  # noqa: BLE001
+            import traceback
+            ctx.broken("correspondence", "set_fixed_node_entries harness", traceback.format_exc()[-600:])
+            return lambda: None
+        body.append(txt)
+        ctx.case({"fixed_entries": txt[:200]}, True)
+        if bad:
+            any_bad = True
+            ctx.violation({"fn": "set_fixed_node_entries", "what": "placement"},
+                          "fixed values %r given for junctions %r: the node pit holds %r (counts %r) for the junction rows "
+                          "%r; every junction's own mean is %r" % (bad["values"], bad["fixed_at"], bad["observed_value"],
+                                                                   bad["observed_count"], bad["labels_in_row_order"],
+                                                                   bad["expected_value"]),
+                          {"kind": "fixed_entries", "net": sp, "info": bad})
+    txt = HDR + "Definition cs : list fx_case := [\n%s\n].\nEval vm_compute in (summary fx_case_ok cs).\n" % ";\n".join(body)
+    fut = pool.submit(ctx.coq_counts_gated, txt, "fx_0")
+
+    def finish():
+        trip, out = fut.result()
+        if not trip:
+            ctx.broken("correspondence", "fixed entries model (coqc failed)", out[-800:])
+            return
+        nn, m, first = trip[0]
+        if m and not any_bad:
+            ctx.broken("correspondence", "ModelExtract.fixed_code vs set_fixed_node_entries", "case %d differs" % first)
+        ctx.corr("C06.ModelExtract.fixed_code == fixed_spec == component_toolbox.set_fixed_node_entries (value, count "
+                 "and type columns of the junction rows; reversed / shuffled / large labels first)", nn, m)
+    return finish
